@@ -11,7 +11,7 @@
      (breakpad-symbols walker.rs eval_cfi_expr: u64 wrapping arithmetic, `^` = read of one
      C::Register, set_cfa/set_ra/set_caller_register = C::Register::try_from). *)
 From RM Require Import C08.Model C05.Model.
-From RM Require C06.Model.
+From RM Require C06.Model C07.Model C07.Text C09.Grammar.
 Open Scope Z_scope.
 
 (* A module's symbol file: FUNC record + one STACK CFI INIT record, whose rules are either the small
@@ -20,7 +20,29 @@ Open Scope Z_scope.
    [cfi_text]). *)
 Record symrule := { s_func_lo : Z; s_func_size : Z; s_cfi_lo : Z; s_cfi_size : Z;
                     s_cfa_off : Z; s_ra_kind : Z; s_ra_arg : Z; s_fp_off : option Z;
-                    s_text : option (list Z * list (Z * list Z)) }.
+                    s_text : option (list Z * list (Z * list Z));
+                    s_table : option C09.Grammar.table }.   (* the whole symbol file, parsed by C09's grammar *)
+
+(* `T|line|line|...`: the lines of a symbol file (FUNC / STACK WIN / STACK CFI INIT / STACK CFI records; the driver
+   puts the MODULE line in front).  SymbolFile::from_bytes = C09's line grammar + SymbolParser::finish. *)
+Definition parse_symfile (lines : list (list Z)) : option C09.Grammar.table :=
+  match C07.Text.parse_lines C09.Grammar.init_pst (map C09.Grammar.to_rle lines) with
+  | Some ps => match C09.Grammar.finish ps with Ret t => Some t | _ => None end
+  | None => None
+  end.
+(* SymbolFile::fill_symbol (no PUBLIC records in these files): Some (parameter size) when a FUNC covers the address *)
+Definition table_fill (t : C09.Grammar.table) (addr : Z) : option Z :=
+  match rm_get (C09.Grammar.t_funcs t) addr with
+  | None => None
+  | Some f =>
+      Some (match rm_get (C09.Grammar.t_win_fd t) addr with
+            | Some w => C09.Grammar.wi_params w
+            | None => match rm_get (C09.Grammar.t_win_fpo t) addr with
+                      | Some w => C09.Grammar.wi_params w
+                      | None => C09.Grammar.sf_psize f
+                      end
+            end)
+  end.
 
 (* register names <-> the byte strings of C06 *)
 Fixpoint bytes_of_name_aux (fuel : nat) (n : Z) (acc : list Z) : list Z :=
@@ -66,7 +88,10 @@ Definition d_instr_valid (x : Z) : bool :=
        | Some (b, _, None) => true
        | Some (b, _, Some s) =>
            let addr := i - b in
-           (0 <? s_func_size s) && (s_func_lo s <=? addr) && (addr <? s_func_lo s + s_func_size s)
+           match s_table s with
+           | Some t => match table_fill t addr with Some _ => true | None => false end
+           | None => (0 <? s_func_size s) && (s_func_lo s <=? addr) && (addr <? s_func_lo s + s_func_size s)
+           end
        end.
 
 Definition memoize (n : Z) : Z :=
@@ -162,9 +187,56 @@ Definition cfi_text (callee : frame) (gc : option frame) (fwd : list Z) : option
   | _ => None
   end.
 
+(* StackFrame::parameter_size of a frame = what fill_symbol set when the frame was symbolicated *)
+Definition frame_param_size (f : frame) : Z :=
+  match mod_of (f_instr f) with
+  | Some (b, _, Some s) =>
+      match s_table s with
+      | Some t => if f_instr f <? b then 0 else match table_fill t (f_instr f - b) with Some ps => ps | None => 0 end
+      | None => 0
+      end
+  | _ => 0
+  end.
+
+(* whole symbol files: SymbolFile::walk_frame (STACK WIN frame data > FPO > STACK CFI) as C07/Text.v models it *)
+Definition cfi_table (callee : frame) (gc : option frame) (fwd : list Z) : option (regs * list Z) :=
+  match mod_of (f_instr callee) with
+  | Some (b, _, Some s) =>
+      match s_table s with
+      | None => None
+      | Some t =>
+          if f_instr callee <? b then None else
+          let r := f_regs callee in
+          let E := C06.Model.mkEnv
+                     (fun nb => match C06.Model.memoize arch6 nb with
+                                | None => None
+                                | Some cb => if reg_valid a (name_of_bytes nb) (f_valid callee)
+                                             then Some (view a (slot_value r (name_of_bytes cb))) else None
+                                end)
+                     (fun ptr => read mem (a_pw a) ptr)
+                     (f_instr callee - b) (match gc with Some _ => true | None => false end)
+                     (match gc with Some g => frame_param_size g | None => 0 end) in
+          let st0 := C06.Model.mkR (fun nb => slot_value r (name_of_bytes nb)) (fun nb => memb (name_of_bytes nb) fwd) in
+          match C07.Text.walk_frame_table (C06.Model.real_ops arch6) Debug E t st0 with
+          | Ret (Some st) =>
+              let get := fun n => C06.Model.r_ctx st (bytes_of_name n) in
+              Some ({| r_ip := get (a_cfi_ip_name a); r_sp := get (a_cfi_sp_name a); r_fp := get fp_canon;
+                       r_lr := match lrname with Some l => get l | None => r_lr r end;
+                       r_gp := map get gp_names |},
+                    filter (fun n => C06.Model.r_valid st (bytes_of_name n)) regnames)
+          | _ => None
+          end
+      end
+  | _ => None
+  end.
+
 Definition cfi_any (callee : frame) (gc : option frame) (fwd : list Z) : option (regs * list Z) :=
   match mod_of (f_instr callee) with
-  | Some (_, _, Some s) => match s_text s with Some _ => cfi_text callee gc fwd | None => cfi_family callee gc fwd end
+  | Some (_, _, Some s) =>
+      match s_table s with
+      | Some _ => cfi_table callee gc fwd
+      | None => match s_text s with Some _ => cfi_text callee gc fwd | None => cfi_family callee gc fwd end
+      end
   | _ => None
   end.
 
